@@ -213,6 +213,14 @@ def run(ctx):
     res_nat = land.run_cases(nat, case_timeout=90)
     scs = landing_scenarios(ctx.quick)
     bases, runs = land.sweep(scs, actions_for(ctx.quick), full=full)
+    # the other landing alphabet: right after each call made by the run-loop functions has returned (every point: the paths are short)
+    post_scs = [dict(s_, post_call=True) for s_ in scs]
+    pbases, pruns = land.sweep(post_scs, lambda s_: ['terminate'] if s_['kind'] in ('T', 'PT') else ['terminate', 'interrupt'], full=True)
+    for b_, s_ in zip(pbases, post_scs):
+        if not b_.get('events_total'):
+            ctx.selftest_fail('post-call base path of %s/%s produced no landing point' % (s_['kind'], s_['target']))
+    ctx.extra['post_call_landing_runs'] = len(pruns)
+    runs = runs + pruns
     # two requests per run for thread kinds (the second one can land inside the handling of the first)
     pair_scs = [{'kind': 'T', 'target': 't_loop', 'ending': 'landing-pair'}, {'kind': 'T', 'target': 't_raise', 'ending': 'landing-pair'}]
     if not ctx.quick:
@@ -226,7 +234,7 @@ def run(ctx):
         ev = (case.get('events') or [None])[0]
         site = ((obs.get('landed') or [{}])[0].get('site')) or case.get('_site')      # where it really landed in this run
         ctx.count()
-        ctx.distinct((case['kind'], case['target'], case.get('observe'), case.get('ending'), repr(case.get('kill_after')), tuple((e['action'], e['k']) for e in (case.get('events') or []))))
+        ctx.distinct((case['kind'], case['target'], case.get('observe'), case.get('ending'), repr(case.get('kill_after')), bool(case.get('post_call')), tuple((e['action'], e['k']) for e in (case.get('events') or []))))
         v = judge(case, obs)
         ctx.outcome('%s:%s' % (case['kind'], v[0] if v else 'ok'))
         if v is None:
@@ -250,7 +258,7 @@ def run(ctx):
             s2 = (l2[1].get('site') if len(l2) > 1 else None) or case.get('_site2')
             where = 'terminate@%s+terminate@%s' % (land.site_sig(site, REPO), land.site_sig(s2, REPO) if s2 else 'not-reached')
         sig = 'LAND/%s/%s/%s/%s' % (case['kind'], case['target'], where, v[0])
-        ctx.violation(sig, {k: case.get(k) for k in ('kind', 'target', 'inputs', 'close', 'events', 'observe', '_site')},
+        ctx.violation(sig, {k: case.get(k) for k in ('kind', 'target', 'inputs', 'close', 'events', 'observe', '_site', 'post_call')},
                       {'death': obs.get('death'), 'rounds': obs.get('rounds'), 'terminate_ret': obs.get('terminate_ret')},
                       'one definite, stable outcome of the expected shape', engine='LAND')
     slow_consumer_part(ctx)
